@@ -45,7 +45,15 @@ const URIS: &[&str] = &[
     "http://www.w3.org/2000/xmlns/ext", "http://www.w3.org/2000/xmlns", "HTTP://WWW.W3.ORG/2000/XMLNS/",
     "http://www.w3.org/XML/1998/namespace/2", "http://www.w3.org/XML/1998/namespac", "http://www.w3.org/2000/svg", "u 1", "ü",
     "urn:a-long-namespace-name:0123456789:abcdefghijklmnopqrstuvwxyz:0123456789:abcdefghijklmnopqrstuvwxyz",
+    // namespace names with characters that need escaping in an attribute value (written with
+    // the five predefined references; `uri_value` decodes them)
+    "a&amp;b", "q&quot;q", "l&lt;t", "g&gt;t", "&apos;s", "&amp;amp;",
 ];
+
+/// The namespace name a URI pool entry denotes (the pool uses only the five predefined references).
+pub fn uri_value(v: &str) -> String {
+    v.replace("&quot;", "\"").replace("&lt;", "<").replace("&gt;", ">").replace("&apos;", "'").replace("&amp;", "&")
+}
 const VALUES: &[&str] = &[
     "", "v", "1", "a b", "&amp;", "&lt;", "&#13;", "&#9;", "'", "&quot;", "é", ">", "\t", "\n", "\u{85}", "\u{2028}", "\u{80}",
     "\u{9f}", "\u{7f}", "\u{1}", "\u{a0}", "&#133;", "&#x80;", "\u{fffe}", "😁", "]]>", "--",
